@@ -6,6 +6,7 @@
    looking at the fetcher's tables; [reachT]; [pass_pending]; [owed]).  Proofs: proofs/FetcherProofs.v. *)
 From Coq Require Import NArith ZArith List Bool.
 From LV Require Import model.Fetcher spec.FetcherSpec proofs.FetcherProofs proofs.FetcherLiveness.
+From LV Require Import model.Workers proofs.WorkersProofs.
 Import ListNotations.
 
 (* SAFETY, for every configuration and EVERY event sequence (any interleaving of announcements,
@@ -157,6 +158,29 @@ Example C16_response_nonvacuous :
   snd (run true cfg_ex ex_resp_state ex_resp_trace) = [(400%Z, (1%N, [7%N]))].
 Proof. exact ex_resp_hyps. Qed.
 
+(* ---------- utils/workers: the pool the request closures are handed to (model/Workers.v) ---------- *)
+(* For every sequence of Enqueue / worker-select / task-end / close(quit) / Drain events, with any
+   outcome of the random choice Go makes between two ready select cases: a closure is started at most
+   once, and only if its Enqueue returned nil. *)
+Theorem C16_workers_run_at_most_once : forall cap n tr,
+  fresh_ids (pool_init cap n) tr ->
+  let s := fst (wrun (pool_init cap n) tr) in
+  NoDup (p_ran s) /\ forall id, In id (p_ran s) -> In id (p_accepted s).
+Proof. exact workers_run_at_most_once. Qed.
+(* Once the owner's Stop has returned (quit closed, wg.Wait() saw every worker exit) no closure is ever
+   started again, whatever happens afterwards. *)
+Theorem C16_workers_nothing_after_stop : forall s ev,
+  stopped s -> stopped (fst (wstep s ev)) /\ p_ran (fst (wstep s ev)) = p_ran s /\
+  match snd (wstep s ev) with OStart _ => False | _ => True end.
+Proof. exact workers_nothing_after_stop. Qed.
+(* Enqueue after close(quit) fails when the buffer is full.  With room in the buffer the select may pick
+   either case: "Enqueue after Stop fails" is NOT guaranteed by the code (workers_enqueue_after_quit_may_succeed
+   in proofs/, and observed on the real pool: statistic w_enqueue_after_quit_accepted); such a closure is
+   never run, by the previous theorem. *)
+Theorem C16_workers_enqueue_after_quit_full : forall s id pq,
+  p_quit s = true -> (p_cap s <= length (p_queue s))%nat -> wstep s (WEnqueue id pq) = (s, OEnq id false).
+Proof. exact workers_enqueue_after_quit_full. Qed.
+
 (* non-vacuity of C16_liveness: a concrete fair trace within capacity, and the requests it leads to *)
 Example C16_liveness_nonvacuous :
   clock_ok 0%Z ex_live_trace /\ fair_run cfg_ex 0%Z (init 0%Z) 0%Z ex_live_trace /\
@@ -174,3 +198,6 @@ Print Assumptions C16_liveness_fetching_was_requested_partial.
 Print Assumptions C16_liveness_response_partial.
 Print Assumptions C16_liveness.
 Print Assumptions C16_liveness_unsuspend.
+Print Assumptions C16_workers_run_at_most_once.
+Print Assumptions C16_workers_nothing_after_stop.
+Print Assumptions C16_workers_enqueue_after_quit_full.
